@@ -44,6 +44,7 @@ def observations(case):
 
 def correspondence(ctx):
     r = ctx.rng
+    pipeline.run_corpus(ctx, "C08", ["C08", "C01", "C02", "C09", "C14", "C03", "C07"])
     thorough = ctx.tier == "thorough"
     groups = []
     scripts = []
